@@ -59,9 +59,27 @@ func verifDir() string {
 }
 
 type knownFinding struct {
-	Property string `json:"property"`
-	Match    string `json:"match"` // substring of the violation signature
-	What     string `json:"what"`
+	Property         string   `json:"property"`
+	ScenarioContains []string `json:"scenario_contains"`
+	MessageContains  []string `json:"message_contains"`
+	What             string   `json:"what"`
+}
+
+func (k knownFinding) matches(prop string, v Violation) bool {
+	if k.Property != prop || len(k.ScenarioContains)+len(k.MessageContains) == 0 {
+		return false
+	}
+	for _, s := range k.ScenarioContains {
+		if !strings.Contains(v.Scenario, s) {
+			return false
+		}
+	}
+	for _, s := range k.MessageContains {
+		if !strings.Contains(v.Message, s) {
+			return false
+		}
+	}
+	return true
 }
 
 func loadKnown() []knownFinding {
@@ -262,10 +280,10 @@ func report(c *CheckDef, tier string, seed int, units []Unit, results []*Stats, 
 			}
 			isKnown := false
 			for _, k := range known {
-				if k.Property == c.Property && strings.Contains(v.Sig, k.Match) {
+				if k.matches(c.Property, v) {
 					isKnown = true
-					if !knownSeen[k.Match] {
-						knownSeen[k.Match] = true
+					if !knownSeen[k.What] {
+						knownSeen[k.What] = true
 						knownHit = append(knownHit, k.What)
 						fmt.Printf("KNOWN-FINDING: property=%s %s\n", c.Property, k.What)
 					}
